@@ -454,7 +454,7 @@ func c51jwtRef(token string, keys []*c51jwk, now int64) c51verdict {
 
 // ---- Authorization header forms ---------------------------------------------------------------
 
-const c51jForms = 10
+const c51jForms = 11
 
 func c51bearerForm(f int, token string, tok c51verdict) ([][2]string, c51verdict, string) {
 	inv := func(reason string) c51verdict { return c51verdict{c51Invalid, reason} }
@@ -483,8 +483,10 @@ func c51bearerForm(f int, token string, tok c51verdict) ([][2]string, c51verdict
 		return [][2]string{{"Authorization", "Bearer " + token + " x"}}, silentOr("trailing-garbage"), "trailing"
 	case 8:
 		return [][2]string{{"Proxy-Authorization", "Bearer " + token}}, inv("no-authorization"), "proxy-authorization"
-	default:
+	case 9:
 		return [][2]string{{"Authorization", "Bearer invalid.token.x"}, {"Authorization", "Bearer " + token}}, silentOr("duplicate-authorization"), "dup-bad-first"
+	default:
+		return [][2]string{{"Authorization", "Bearer " + token}, {"Authorization", "Bearer invalid.token.x"}}, silentOr("duplicate-authorization"), "dup-bad-last"
 	}
 }
 
